@@ -374,6 +374,33 @@ func run(t *T) {
 			n++
 		}
 	}
+	// every transaction code the IAT totals table can meet, each in a one-batch IAT file (zero and non-zero amounts):
+	// an amount whose code is in neither list of IATBatch.calculateBatchAmounts would be unprotected
+	for ci, code := range []int{21, 22, 23, 24, 26, 27, 28, 29, 31, 32, 33, 34, 36, 37, 38, 39, 41, 42, 43, 44, 46, 47, 48, 49, 51, 52, 53, 54, 55, 56} {
+		gr := t.R.Fork(uint64(900000 + ci))
+		f, err := gen.File(gr, gen.Opts{SECs: []string{ach.IAT}, MinBatches: 1, MaxBatches: 1, MaxEntries: 2, PresetTraces: true})
+		if err != nil || len(f.IATBatches) == 0 || len(f.IATBatches[0].Entries) == 0 {
+			continue
+		}
+		e := f.IATBatches[0].Entries[0]
+		e.TransactionCode = code
+		if ci%2 == 0 {
+			e.Amount = 0
+		}
+		f.IATBatches[0].Header.ServiceClassCode = ach.MixedDebitsAndCredits
+		if f.IATBatches[0].Create() != nil || f.Create() != nil {
+			continue
+		}
+		text, err := writeFile(f, "\n")
+		if err != nil {
+			continue
+		}
+		if _, err := readValidate(text); err != nil {
+			continue // this code needs more than a forward IAT entry offers (returns, NOCs): not a sample
+		}
+		samples = append(samples, newSample(fmt.Sprintf("iat-code[%d]", code), "gen", f, text, "\n"))
+	}
+
 	// corpus: the fixtures that are valid and stable under write/read
 	corpus := gen.CorpusTexts()
 	var paths []string
